@@ -2,6 +2,8 @@ package metadata
 
 import (
 	"fmt"
+	"go/ast"
+	"reflect"
 
 	"github.com/gopher-fleece/gleece/v2/core/annotations"
 	"github.com/gopher-fleece/gleece/v2/definitions"
@@ -14,13 +16,18 @@ type StructMeta struct {
 }
 
 func (s StructMeta) Reduce(ctx ReductionContext) (definitions.StructMetadata, error) {
-	reducedFields := make([]definitions.FieldMetadata, len(s.Fields))
-	for idx, field := range s.Fields {
+	reducedFields := make([]definitions.FieldMetadata, 0, len(s.Fields))
+	for _, field := range s.Fields {
 		reduced, err := field.Reduce(ctx)
 		if err != nil {
 			return definitions.StructMetadata{}, fmt.Errorf("failed to reduce field '%s' - %v", field.Name, err)
 		}
-		reducedFields[idx] = reduced
+
+		// Fields that never make it to the wire are not a part of the model
+		if !reduced.IsEmbedded && !isJsonVisibleField(reduced.Name, reduced.Tag) {
+			continue
+		}
+		reducedFields = append(reducedFields, reduced)
 	}
 
 	return definitions.StructMetadata{
@@ -30,4 +37,14 @@ func (s StructMeta) Reduce(ctx ReductionContext) (definitions.StructMetadata, er
 		Fields:      reducedFields,
 		Deprecation: GetDeprecationOpts(s.Annotations),
 	}, nil
+}
+
+// isJsonVisibleField tells whether encoding/json writes the given (non-embedded) struct field:
+// it has to be exported and must not be tagged `json:"-"`
+func isJsonVisibleField(name string, tag string) bool {
+	if !ast.IsExported(name) {
+		return false
+	}
+	jsonTag, _ := reflect.StructTag(tag).Lookup("json")
+	return jsonTag != "-"
 }
